@@ -139,3 +139,73 @@ package router
 //@   ensures [non-member-no-change] !old(isMember(b, subscriber, msg.Subscription)) ==> (forall i wamp.ID :: (i in b.subscriptions) == old(i in b.subscriptions))
 //@   callsite trySend : [non-member-error] !old(isMember(b, subscriber, msg.Subscription)) ==> arg1 == subscriber && is(arg2, *wamp.Error) && arg2.(*wamp.Error).Error == wamp.ErrNoSuchSubscription && arg2.(*wamp.Error).Request == msg.Request
 //@   callsite trySend : [member-unsubscribed] old(isMember(b, subscriber, msg.Subscription)) ==> arg1 == subscriber && is(arg2, *wamp.Unsubscribed) && arg2.(*wamp.Unsubscribed).Request == msg.Request
+
+//@ pred brokerIndexExcept(b *broker, x *wamp.Session) = (forall s *wamp.Session, i wamp.ID :: s != x ==> ((s in b.sessionSubIDSet && i in b.sessionSubIDSet[s]) <==> isMember(b, s, i))) && (forall s *wamp.Session :: s in b.sessionSubIDSet ==> allocated(b.sessionSubIDSet[s]))
+
+//@ func (b *broker) syncRemoveSession
+//@   on broker
+//@   props C01 C05 C18
+//@   requires brokerInv(b) && brokerIndex(b) && brokerOwn(b)
+//@   requires subscriber != nil
+//@   modifies map(b.subscriptions), map(b.topicSubscription), map(b.pfxTopicSubscription), map(b.wcTopicSubscription), map(b.sessionSubIDSet), all map[*wamp.Session]struct{}, ghost sendcount
+//@   ensures [inv-nn] brokerNN(b)
+//@   ensures [inv-subs] brokerSubs(b)
+//@   ensures [inv-exact] brokerExact(b)
+//@   ensures [inv-pfx] brokerPfx(b)
+//@   ensures [inv-wc] brokerWc(b)
+//@   ensures [inv-sess] brokerSess(b)
+//@   ensures [inv-index] brokerIndex(b)
+//@   ensures [inv-own] brokerOwn(b)
+//@   ensures [gone] forall i wamp.ID :: !isMember(b, subscriber, i)
+//@   ensures [gone-index] !(subscriber in b.sessionSubIDSet)
+//@   ensures [others-untouched] forall s *wamp.Session, i wamp.ID :: s != subscriber ==> (isMember(b, s, i) <==> old(isMember(b, s, i)))
+//@   loop range subIDSet
+//@     invariant [nn] brokerNN(b)
+//@     invariant [subs] brokerSubs(b)
+//@     invariant [exact] brokerExact(b)
+//@     invariant [pfx] brokerPfx(b)
+//@     invariant [wc] brokerWc(b)
+//@     invariant [sess] brokerSess(b)
+//@     invariant [own] brokerOwn(b)
+//@     invariant [index-others] brokerIndexExcept(b, subscriber) && !(subscriber in b.sessionSubIDSet)
+//@     invariant [covered] forall i wamp.ID :: isMember(b, subscriber, i) ==> (i in subIDSet && !visited(i))
+//@     invariant [others-untouched] forall s *wamp.Session, i wamp.ID :: s != subscriber ==> (isMember(b, s, i) <==> old(isMember(b, s, i)))
+
+// ---------------------------------------------------------------------------
+// Broker: publication
+
+//@ spec func allowedBy(f PublishFilter, id wamp.ID, details wamp.Dict) bool
+
+//@ iface (PublishFilter) Allowed
+//@   pure
+//@   ensures [def] result == allowedBy(recv, sess.ID, sess.Details)
+
+//@ pred identityKeysAbsent(d wamp.Dict) = !("publisher" in d) && !("publisher_authid" in d) && !("publisher_authrole" in d)
+
+//@ func disclosePublisher
+//@   props C12
+//@   requires pub != nil && details != nil
+//@   modifies map(details)
+//@   ensures [publisher] "publisher" in details && details["publisher"] == box(pub.ID)
+//@   ensures [others-kept] forall k string :: k != "publisher" && k != "publisher_authid" && k != "publisher_authrole" ==> (k in details) == old(k in details) && details[k] == old(details[k])
+//@   loop range []string{"authid", "authrole"}
+//@     invariant [publisher] "publisher" in details && details["publisher"] == box(pub.ID)
+//@     invariant [others-kept] forall k string :: k != "publisher" && k != "publisher_authid" && k != "publisher_authrole" ==> (k in details) == old(k in details) && details[k] == old(details[k])
+
+//@ func prepareEvent
+//@   props C01 C12
+//@   requires pub != nil && msg != nil && sub != nil
+//@   requires subscriber == nil || !isnil(subscriber.Peer)
+//@   requires eventDetails == nil || identityKeysAbsent(eventDetails)
+//@   modifies nothing
+//@   ensures [fresh] result != nil && fresh(result)
+//@   ensures [ids] result.Publication == pubID && result.Subscription == sub.id
+//@   ensures [args-remote] subscriber == nil || !method(subscriber.Peer, "IsLocal") ==> result.Arguments == msg.Arguments && result.ArgumentsKw == msg.ArgumentsKw
+//@   ensures [args-local] subscriber != nil && method(subscriber.Peer, "IsLocal") ==> len(result.Arguments) == len(msg.Arguments) && (forall i mathint :: 0 <= i && i < len(msg.Arguments) ==> result.Arguments[i] == msg.Arguments[i]) && (forall k string :: (k in result.ArgumentsKw) == (k in msg.ArgumentsKw) && result.ArgumentsKw[k] == msg.ArgumentsKw[k])
+//@   ensures [private-local] subscriber != nil && method(subscriber.Peer, "IsLocal") ==> (msg.ArgumentsKw != nil ==> fresh(result.ArgumentsKw)) && (msg.Arguments != nil ==> result.Arguments != msg.Arguments || len(msg.Arguments) == 0)
+//@   ensures [details-private] result.Details != nil && fresh(result.Details)
+//@   ensures [topic] sendTopic ==> "topic" in result.Details && result.Details["topic"] == box(msg.Topic)
+//@   ensures [no-topic] !sendTopic && (eventDetails == nil || !("topic" in eventDetails)) ==> !("topic" in result.Details)
+//@   ensures [disclosure] "publisher" in result.Details ==> disclose && subscriber != nil && hasFeature(subscriber, "subscriber", "publisher_identification")
+//@   ensures [disclosed] disclose && subscriber != nil && hasFeature(subscriber, "subscriber", "publisher_identification") ==> "publisher" in result.Details && result.Details["publisher"] == box(pub.ID)
+//@   ensures [details-carried] eventDetails != nil ==> (forall k string :: k in eventDetails && k != "topic" && k != "publisher" && k != "publisher_authid" && k != "publisher_authrole" ==> k in result.Details && result.Details[k] == eventDetails[k])
